@@ -46,6 +46,8 @@ pub struct Rt {
     pub src_polls: Cell<u64>,
     /// waker handed to `stream_ready`
     pub tick_waker: RefCell<Option<Waker>>,
+    /// a pull cap was hit (a pull that neither pends nor ends)
+    pub cap_hit: Cell<bool>,
     /// C13: matches queued in `current_matches` of the lhs / rhs join state (tracked by the spy)
     pub jq: [Cell<i64>; 2],
     /// C13: bit 0 / 1: `iter()` was called on the lhs / rhs state (which enumeration path ran)
@@ -75,6 +77,7 @@ pub fn rt_reset() {
         r.inspect.set(0);
         r.src_polls.set(0);
         *r.tick_waker.borrow_mut() = None;
+        r.cap_hit.set(false);
         r.jq[0].set(0);
         r.jq[1].set(0);
         r.jiter.set(0);
@@ -279,11 +282,12 @@ impl<T: Clone> Script<T> {
 
 pub struct SimPull<T, K, Z> {
     pub s: Script<T>,
+    after_end: u8,
     _m: PhantomData<fn() -> (K, Z)>,
 }
 impl<T, K, Z> SimPull<T, K, Z> {
     pub fn new(s: Script<T>) -> Self {
-        SimPull { s, _m: PhantomData }
+        SimPull { s, after_end: 0, _m: PhantomData }
     }
 }
 impl<T, K, Z> Unpin for SimPull<T, K, Z> {}
@@ -309,9 +313,12 @@ impl<T: Item, K: CtxKind, Z: FuseKind> Pull for SimPull<T, K, Z> {
                     PullStep::Ended(Yes)
                 } else {
                     this.s.poisoned();
+                    // a few poison items, then Ended again: a combinator that keeps re-pulling an
+                    // ended upstream must not be able to spin the harness forever
+                    this.after_end = this.after_end.saturating_add(1);
                     match T::poison() {
-                        Some(x) => PullStep::Ready(x, ()),
-                        None => PullStep::Ended(Yes),
+                        Some(x) if this.after_end <= 6 => PullStep::Ready(x, ()),
+                        _ => PullStep::Ended(Yes),
                     }
                 }
             }
